@@ -408,6 +408,17 @@ theorem job_loop_passes_bounded (s : JL) (k : Nat) :
     settleN (s.njob + 4 + k) s = settleN (s.njob + 4) s :=
   settleN_fuel_enough _ s k (by have := mu_le s; omega)
 
+open StepupModel.B.JobLoop in
+/-- **A phase ends only after the scheduler has answered "no job"**: the pass of `job_loop` that
+returns has called `pop_next_job` in that same pass and got nothing, with no task running, none left to
+retire and no unclaimed hash job queued (`njob ≥ 1` is enforced by `ServeConfig`).  Together with
+`popNext_exact` (the kernel side: "nothing" is answered only when no step is
+eligible) and the fact that with no task running no request can reach the director between that poll
+and the return, this is the converse direction of the property on the builder side. -/
+theorem phase_ends_only_after_an_empty_poll (s : JL) (hn : 1 ≤ s.njob) (h : (iter s).2 = .ret) :
+    (iter s).1.polls = s.polls + 1 ∧ s.offers = [] ∧ s.running = [] ∧ (∀ i ∈ s.queue, i ∈ s.claimed) :=
+  iter_ret_polled s hn h
+
 /-- Obligations on the source (tables regenerated by `ast` on every run): the events that the
 model treats as setting the wake event do so in the code: a finished task (`_task_done`), a retired
 task (`handle_done_tasks`), a submitted hash job (`HashQueue.submit`); the loop body ends with
